@@ -164,6 +164,8 @@ def run(ctx):
             k = None
             if f:
                 e = fold(f[0].expr)
+                if not any(n_[0] == 'param' for n_ in walk(e)):
+                    continue        # the path on which the optional length is absent (`match length { None => 0, .. }`): a default, not a sum
                 for n_ in walk(e):
                     if n_[0] == 'bin' and n_[1].startswith('Add') and fold(n_[3])[0] == 'const':
                         k = fold(n_[3])[1]
